@@ -22,3 +22,7 @@ VF_API double vf_c2(double a, double f) { Geodesic g(a, f); return g._c2; }
 VF_API double vf_geninverse(double a, double f, double lat1, double lon1, double lat2, double lon2, double* out) {
   Geodesic g(a, f); return g.GenInverse(lat1, lon1, lat2, lon2, Geodesic::DISTANCE | Geodesic::AZIMUTH | Geodesic::REDUCEDLENGTH | Geodesic::GEODESICSCALE, out[0], out[1], out[2], out[3], out[4], out[5], out[6], out[7], out[8]);
 }
+// the same with AREA requested (replay of the series-vs-exact obligations)
+VF_API double vf_geninverse_area(double a, double f, double lat1, double lon1, double lat2, double lon2, double* out) {
+  Geodesic g(a, f); return g.GenInverse(lat1, lon1, lat2, lon2, Geodesic::DISTANCE | Geodesic::AZIMUTH | Geodesic::REDUCEDLENGTH | Geodesic::GEODESICSCALE | Geodesic::AREA, out[0], out[1], out[2], out[3], out[4], out[5], out[6], out[7], out[8]);
+}
